@@ -67,7 +67,7 @@ type Plan struct {
 	Rule        string
 	Assumptions []string
 	Race        bool     // needs the race build
-	Variants    []string // extra build tags: one more build of the workload per tag (vfh-<tag>)
+	Variants    []string // extra build tags: one more build of the workload per tag (vfh-<tag>); "trimpath" stands for the build flag -trimpath
 	NoInline    bool     // thorough tier also needs a build without inlining
 	Exhaustive  func(tier string) bool
 	Jobs        func(tier string, seed int64) []Job
@@ -332,6 +332,10 @@ func buildVfh(plan *Plan, replay *Replay) error {
 	for _, v := range plan.Variants {
 		// the workload built with an extra build tag (a tag of the LIBRARY that switches code on, e.g. verbose)
 		args := []string{"build", "-modfile=" + filepath.Join(buildDir, "go.mod"), "-tags", "verif " + v, "-o", filepath.Join(buildDir, "vfh-"+v), "./cmd/vfh"}
+		if v == "trimpath" {
+			// not a tag: the workload (and the library in it) built with -trimpath, the way release binaries are
+			args = []string{"build", "-modfile=" + filepath.Join(buildDir, "go.mod"), "-trimpath", "-tags", "verif", "-o", filepath.Join(buildDir, "vfh-"+v), "./cmd/vfh"}
+		}
 		cmd := exec.Command("go", args...)
 		cmd.Dir = filepath.Join(verifDir, "harness")
 		cmd.Env = goEnv()
